@@ -1024,4 +1024,451 @@ theorem visitAllotment_ck {st : CState} {Γ : TEnv} (hinv : Inv st Γ) (ps : Lis
       | error e => cases emitSeq_err hs; trivial
       | ok r => exact ⟨rfl, h4.trans (emitSeq_ext hs)⟩
 
+/-! ### destinations -/
+
+mutual
+theorem visitDest_ck {st : CState} {Γ : TEnv} (hinv : Inv st Γ) (d : Dest) :
+    CkSpec (visitDest st d) (checkDest Γ d) (fun r => Ext st r.2) := by
+  cases d with
+  | acct e =>
+    simp only [visitDest, checkDest]
+    have he := visitExpr_ck hinv e
+    cases hv : visitExpr st e with
+    | error er =>
+      rw [hv] at he
+      exact he.err (by intro hf; simp [isSome_false hf])
+    | ok o =>
+      rw [hv] at he
+      obtain ⟨_, t, ht1, ht2⟩ := he
+      simp only
+      by_cases hty : o.ty = .account
+      · have : t = .account := Ty.toB_inj (by rw [← ht2, hty]; rfl)
+        subst this
+        simp only [hty, ne_eq, not_true_eq_false, if_false]
+        exact ⟨by simp [ht1], visitExpr_ext hv⟩
+      · simp only [hty, ne_eq, not_false_eq_true, if_true]
+        have : t ≠ .account := by intro e'; subst e'; exact hty ht2
+        show decide (tyOf Γ e = some .account) = false
+        simp [ht1, this]
+  | inorder caps rest =>
+    simp only [visitDest, checkDest]
+    cases h0 : emitSeq st [.op .fundingSum, .op .asset, .pushInt 0, .op .monetaryNew, .bump 1] with
+    | error e => cases emitSeq_err h0; trivial
+    | ok r0 =>
+      obtain ⟨c0, st0⟩ := r0
+      simp only
+      have e0 := emitSeq_ext h0
+      have hc := visitCaps_ck (hinv.ext e0) caps
+      cases h1 : visitCaps st0 caps with
+      | error e => rw [h1] at hc; exact hc.err (by intro hf; simp [hf])
+      | ok r1 =>
+        obtain ⟨c1, st1⟩ := r1
+        rw [h1] at hc
+        obtain ⟨hck1, e1⟩ := hc
+        simp only at e1
+        simp only
+        cases h2 : emitSeq st1 [.op .fundingReverse, .bump 1, .op .take, .op .fundingReverse, .bump 1, .op .fundingReverse] with
+        | error e => cases emitSeq_err h2; trivial
+        | ok r2 =>
+          obtain ⟨c2, st2⟩ := r2
+          simp only
+          have e2 := emitSeq_ext h2
+          have hk := visitKD_ck (hinv.ext (e0.trans (e1.trans e2))) rest
+          cases h3 : visitKD st2 rest with
+          | error e => rw [h3] at hk; exact hk.err (by intro hf; simp [hf])
+          | ok r3 =>
+            obtain ⟨c3, st3⟩ := r3
+            rw [h3] at hk
+            obtain ⟨hck3, e3⟩ := hk
+            simp only at e3
+            simp only
+            cases h4 : emitSeq st3 [.bump 1, .pushInt 2, .op .fundingAssemble] with
+            | error e => cases emitSeq_err h4; trivial
+            | ok r4 =>
+              obtain ⟨c4, st4⟩ := r4
+              exact ⟨by simp [hck1, hck3], e0.trans (e1.trans (e2.trans (e3.trans (emitSeq_ext h4))))⟩
+  | allot items =>
+    simp only [visitDest, checkDest]
+    have ha := visitAllotment_ck hinv (allotPortions items)
+    cases h1 : visitAllotment st (allotPortions items) with
+    | error e => rw [h1] at ha; exact ha.err (by intro hf; simp [hf])
+    | ok r1 =>
+      obtain ⟨c1, st1⟩ := r1
+      rw [h1] at ha
+      obtain ⟨hck1, e1⟩ := ha
+      simp only at e1
+      simp only
+      cases h2 : emitSeq st1 [.bump (allotLen items)] with
+      | error e => cases emitSeq_err h2; trivial
+      | ok r2 =>
+        obtain ⟨c2, st2⟩ := r2
+        simp only
+        have e2 := emitSeq_ext h2
+        have hd := visitAllocDest_ck (hinv.ext (e1.trans e2)) items
+        cases h3 : visitAllocDest st2 items with
+        | error e => rw [h3] at hd; exact hd.err (by intro hf; simp [hf])
+        | ok r3 =>
+          obtain ⟨c3, st3⟩ := r3
+          rw [h3] at hd
+          obtain ⟨hck3, e3⟩ := hd
+          exact ⟨by simp [hck1, hck3], e1.trans (e2.trans e3)⟩
+theorem visitKD_ck {st : CState} {Γ : TEnv} (hinv : Inv st Γ) (kd : KeptOrDest) :
+    CkSpec (visitKD st kd) (checkKD Γ kd) (fun r => Ext st r.2) := by
+  cases kd with
+  | kept => simp only [visitKD, checkKD]; exact ⟨rfl, Ext.refl _⟩
+  | to d => simp only [visitKD, checkKD]; exact visitDest_ck hinv d
+theorem visitCaps_ck {st : CState} {Γ : TEnv} (hinv : Inv st Γ) (cs : CapList) :
+    CkSpec (visitCaps st cs) (checkCaps Γ cs) (fun r => Ext st r.2) := by
+  cases cs with
+  | nil => simp only [visitCaps, checkCaps]; exact ⟨rfl, Ext.refl _⟩
+  | cons cap kd rest =>
+    simp only [visitCaps, checkCaps]
+    have he := visitExpr_ck hinv cap
+    cases hv : visitExpr st cap with
+    | error er =>
+      rw [hv] at he
+      exact he.err (by intro hf; simp [isSome_false hf])
+    | ok o =>
+      rw [hv] at he
+      obtain ⟨_, t, ht1, ht2⟩ := he
+      simp only
+      by_cases hty : o.ty = .monetary
+      · have : t = .monetary := Ty.toB_inj (by rw [← ht2, hty]; rfl)
+        subst this
+        simp only [hty, ne_eq, not_true_eq_false, if_false]
+        have e0 := visitExpr_ext hv
+        cases h1 : emitSeq o.st [.op .takeMax, .bump 2, .op .delete] with
+        | error e => cases emitSeq_err h1; trivial
+        | ok r1 =>
+          obtain ⟨c1, st1⟩ := r1
+          simp only
+          have e1 := emitSeq_ext h1
+          have hk := visitKD_ck (hinv.ext (e0.trans e1)) kd
+          cases h2 : visitKD st1 kd with
+          | error e => rw [h2] at hk; exact hk.err (by intro hf; simp [hf])
+          | ok r2 =>
+            obtain ⟨c2, st2⟩ := r2
+            rw [h2] at hk
+            obtain ⟨hck2, e2⟩ := hk
+            simp only at e2
+            simp only
+            cases h3 : emitSeq st2 [.op .fundingSum, .bump 3, .op .monetaryAdd, .bump 1, .bump 2, .pushInt 2, .op .fundingAssemble] with
+            | error e => cases emitSeq_err h3; trivial
+            | ok r3 =>
+              obtain ⟨c3, st3⟩ := r3
+              simp only
+              have e3 := emitSeq_ext h3
+              have hr := visitCaps_ck (hinv.ext (e0.trans (e1.trans (e2.trans e3)))) rest
+              cases h4 : visitCaps st3 rest with
+              | error e => rw [h4] at hr; exact hr.err (by intro hf; simp [hf])
+              | ok r4 =>
+                obtain ⟨c4, st4⟩ := r4
+                rw [h4] at hr
+                obtain ⟨hck4, e4⟩ := hr
+                exact ⟨by simp [ht1, hck2, hck4], e0.trans (e1.trans (e2.trans (e3.trans e4)))⟩
+      · simp only [hty, ne_eq, not_false_eq_true, if_true]
+        have : t ≠ .monetary := by intro e'; subst e'; exact hty ht2
+        show (decide (tyOf Γ cap = some .monetary) && checkKD Γ kd && checkCaps Γ rest) = false
+        simp [ht1, this]
+theorem visitAllocDest_ck {st : CState} {Γ : TEnv} (hinv : Inv st Γ) (al : AllotList) :
+    CkSpec (visitAllocDest st al) (checkAllot Γ al) (fun r => Ext st r.2) := by
+  cases al with
+  | nil => simp only [visitAllocDest, checkAllot]; exact ⟨rfl, Ext.refl _⟩
+  | cons p kd rest =>
+    simp only [visitAllocDest, checkAllot]
+    cases h1 : emitSeq st [.bump 1, .op .take] with
+    | error e => cases emitSeq_err h1; trivial
+    | ok r1 =>
+      obtain ⟨c1, st1⟩ := r1
+      simp only
+      have e1 := emitSeq_ext h1
+      have hk := visitKD_ck (hinv.ext e1) kd
+      cases h2 : visitKD st1 kd with
+      | error e => rw [h2] at hk; exact hk.err (by intro hf; simp [hf])
+      | ok r2 =>
+        obtain ⟨c2, st2⟩ := r2
+        rw [h2] at hk
+        obtain ⟨hck2, e2⟩ := hk
+        simp only at e2
+        simp only
+        cases h3 : emitSeq st2 [.bump 1, .pushInt 2, .op .fundingAssemble] with
+        | error e => cases emitSeq_err h3; trivial
+        | ok r3 =>
+          obtain ⟨c3, st3⟩ := r3
+          simp only
+          have e3 := emitSeq_ext h3
+          have hr := visitAllocDest_ck (hinv.ext (e1.trans (e2.trans e3))) rest
+          cases h4 : visitAllocDest st3 rest with
+          | error e => rw [h4] at hr; exact hr.err (by intro hf; simp [hf])
+          | ok r4 =>
+            obtain ⟨c4, st4⟩ := r4
+            rw [h4] at hr
+            obtain ⟨hck4, e4⟩ := hr
+            exact ⟨by simp [hck2, hck4], e1.trans (e2.trans (e3.trans e4))⟩
+end
+
+theorem visitDestination_ck {st : CState} {Γ : TEnv} (hinv : Inv st Γ) (d : Dest) :
+    CkSpec (visitDestination st d) (checkDest Γ d) (fun r => Ext st r.2) := by
+  unfold visitDestination
+  have h := visitDest_ck hinv d
+  cases hv : visitDest st d with
+  | error e => rw [hv] at h; exact h.err id
+  | ok r => obtain ⟨c, st'⟩ := r; rw [hv] at h; exact h
+
+/-! ### statements -/
+
+theorem visitAllotSources_ck {st : CState} {Γ : TEnv} (hinv : Inv st Γ) (pa : Code) (m : Addr) (hm : HasTy st.resources m .monetary)
+    (items : List (PortionSpec × Source)) (i : Nat) :
+    CkSpec (visitAllotSources st pa m items i) (items.all fun it => (checkSource Γ false it.2).isSome) (fun _ => True) := by
+  induction items generalizing st i with
+  | nil => simp only [visitAllotSources, List.all_nil]; exact ⟨rfl, trivial⟩
+  | cons it rest ih =>
+    obtain ⟨p, s⟩ := it
+    simp only [visitAllotSources, List.all_cons]
+    have hs := visitSource_ck hinv pa false s
+    cases hv : visitSource st pa false s with
+    | error e => rw [hv] at hs; exact hs.err (by intro hf; simp [hf])
+    | ok so =>
+      rw [hv] at hs
+      obtain ⟨hck1, _⟩ := hs
+      simp only
+      obtain ⟨e1, a1⟩ := visitSource_ok hv
+      cases h1 : emitSeq (setNeeded so.st so.needed m) (.bump (i + 1) :: takeFromSourceSeq so.fallback) with
+      | error e => cases emitSeq_err h1; trivial
+      | ok r1 =>
+        obtain ⟨c1, st1⟩ := r1
+        simp only
+        have e2 := e1.trans ((Ext.setNeeded so.st so.needed m a1 (Or.inr (e1.hasTy hm))).trans (emitSeq_ext h1))
+        have := ih (hinv.ext e2) (e2.hasTy hm) (i + 1)
+        cases h2 : visitAllotSources st1 pa m rest (i + 1) with
+        | error e => rw [h2] at this; exact this.err (by intro hf; simp [hf])
+        | ok r2 =>
+          obtain ⟨c2, st2⟩ := r2
+          rw [h2] at this
+          exact ⟨by simp [hck1, this.1], trivial⟩
+
+/-- the verdict of the source half of a `send` -/
+def sendCk (Γ : TEnv) : SendAmt → VSource → Bool
+  | .mon e, src => decide (tyOf Γ e = some .monetary) && checkVSource Γ false src
+  | .all ae, src => decide (tyOf Γ ae = some .asset) && checkVSource Γ true src
+
+/-- a second visit of an expression that has a type cannot be refused -/
+theorem visitExpr_again {st : CState} {Γ : TEnv} (hinv : Inv st Γ) {e : Expr} {t : Ty} (ht : tyOf Γ e = some t)
+    {ck : Bool} {α : Type} {p : α → Prop} (f : ExprOut → Except CompileErr α)
+    (hf : ∀ o, visitExpr st e = .ok o → CkSpec (f o) ck p) :
+    CkSpec (match visitExpr st e with | .error er => .error er | .ok o => f o) ck p := by
+  have he := visitExpr_ck hinv e
+  cases hv : visitExpr st e with
+  | error er =>
+    rw [hv] at he
+    cases er with
+    | static => simp [CkSpec, ht] at he
+    | nilAddr => exact he.elim
+    | tooManyResources => trivial
+    | tooManyVars => trivial
+  | ok o => exact hf o hv
+
+theorem visitSendSource_ck {st : CState} {Γ : TEnv} (hinv : Inv st Γ) (amt : SendAmt) (src : VSource) :
+    CkSpec (visitSendSource st amt src) (sendCk Γ amt src) (fun _ => True) := by
+  cases amt with
+  | mon e =>
+    have ht := visitTyped_ck hinv .monetary (by decide) e
+    cases src with
+    | src s =>
+      simp only [visitSendSource, sendCk, checkVSource]
+      cases hv : visitTyped st .monetary e with
+      | error er =>
+        have ht' : CkSpec (visitTyped st BTy.monetary e) _ _ := ht
+        rw [hv] at ht'; exact ht'.err (by intro hf; simp [hf])
+      | ok r =>
+        obtain ⟨m, c0, st1⟩ := r
+        have ht' : CkSpec (visitTyped st BTy.monetary e) _ _ := ht
+        rw [hv] at ht'
+        obtain ⟨hck0, _⟩ := ht'
+        have hty : tyOf Γ e = some .monetary := by simpa using hck0
+        simp only
+        obtain ⟨e1, t1⟩ := visitTyped_ok hv
+        have hs := visitSource_ck (hinv.ext e1) [.apush m, .asset] false s
+        cases hvs : visitSource st1 [.apush m, .asset] false s with
+        | error er => rw [hvs] at hs; exact hs.err (by intro hf; simp [hf])
+        | ok so =>
+          rw [hvs] at hs
+          obtain ⟨hck1, _⟩ := hs
+          simp only
+          obtain ⟨e2, a2⟩ := visitSource_ok hvs
+          have e3 := Ext.setNeeded so.st so.needed m a2 (Or.inr (e2.hasTy t1))
+          refine visitExpr_again (hinv.ext (e1.trans (e2.trans e3))) hty _ ?_
+          intro eo heo
+          cases h4 : emitSeq eo.st (takeFromSourceSeq so.fallback) with
+          | error er => cases emitSeq_err h4; trivial
+          | ok r4 => obtain ⟨c, st2⟩ := r4; exact ⟨by simp [hty, hck1], trivial⟩
+    | allot items =>
+      simp only [visitSendSource, sendCk, checkVSource]
+      cases hv : visitTyped st .monetary e with
+      | error er =>
+        have ht' : CkSpec (visitTyped st BTy.monetary e) _ _ := ht
+        rw [hv] at ht'; exact ht'.err (by intro hf; simp [hf])
+      | ok r =>
+        obtain ⟨m, c0, st1⟩ := r
+        have ht' : CkSpec (visitTyped st BTy.monetary e) _ _ := ht
+        rw [hv] at ht'
+        obtain ⟨hck0, _⟩ := ht'
+        have hty : tyOf Γ e = some .monetary := by simpa using hck0
+        simp only
+        obtain ⟨e1, t1⟩ := visitTyped_ok hv
+        refine visitExpr_again (hinv.ext e1) hty _ ?_
+        intro eo heo
+        have e2 := visitExpr_ext heo
+        have ha := visitAllotment_ck (hinv.ext (e1.trans e2)) (items.map (·.1))
+        cases h3 : visitAllotment eo.st (items.map (·.1)) with
+        | error er => rw [h3] at ha; exact ha.err (by intro hf; simp [hf])
+        | ok r3 =>
+          obtain ⟨c1, st2⟩ := r3
+          rw [h3] at ha
+          obtain ⟨hck3, e3⟩ := ha
+          simp only at e3
+          simp only
+          have eall := e1.trans (e2.trans e3)
+          have hs := visitAllotSources_ck (hinv.ext eall) [.apush m, .asset] m ((e2.trans e3).hasTy t1) items 0
+          cases h4 : visitAllotSources st2 [.apush m, .asset] m items 0 with
+          | error er => rw [h4] at hs; exact hs.err (by intro hf; simp [hf])
+          | ok r4 =>
+            obtain ⟨c2, st3⟩ := r4
+            rw [h4] at hs
+            simp only
+            cases h5 : emitSeq st3 [.pushInt items.length, .op .fundingAssemble] with
+            | error er => cases emitSeq_err h5; trivial
+            | ok r5 => obtain ⟨c3, st4⟩ := r5; exact ⟨by simp [hty, hck3, hs.1], trivial⟩
+  | all ae =>
+    have ht := visitTyped_ck hinv .asset (by decide) ae
+    cases src with
+    | src s =>
+      simp only [visitSendSource, sendCk, checkVSource]
+      cases hv : visitTyped st .asset ae with
+      | error er =>
+        have ht' : CkSpec (visitTyped st BTy.asset ae) _ _ := ht
+        rw [hv] at ht'; exact ht'.err (by intro hf; simp [hf])
+      | ok r =>
+        obtain ⟨a, c0, st1⟩ := r
+        have ht' : CkSpec (visitTyped st BTy.asset ae) _ _ := ht
+        rw [hv] at ht'
+        obtain ⟨hck0, _⟩ := ht'
+        simp only
+        obtain ⟨e1, t1⟩ := visitTyped_ok hv
+        have hs := visitSource_ck (hinv.ext e1) [.apush a] true s
+        cases hvs : visitSource st1 [.apush a] true s with
+        | error er => rw [hvs] at hs; exact hs.err (by intro hf; simp [hf])
+        | ok so =>
+          rw [hvs] at hs
+          exact ⟨by simp [hck0, hs.1], trivial⟩
+    | allot items =>
+      simp only [visitSendSource, sendCk, checkVSource]
+      cases hv : visitTyped st .asset ae with
+      | error er =>
+        have ht' : CkSpec (visitTyped st BTy.asset ae) _ _ := ht
+        rw [hv] at ht'; exact ht'.err (by intro hf; simp [hf])
+      | ok r => simp [CkSpec]
+
+theorem checkStmt_send (Γ : TEnv) (amt : SendAmt) (src : VSource) (d : Dest) :
+    checkStmt Γ (.send amt src d) = (sendCk Γ amt src && checkDest Γ d) := by
+  cases amt <;> rfl
+
+theorem visitStmt_ck {st : CState} {Γ : TEnv} (hinv : Inv st Γ) (s : Stmt) :
+    CkSpec (visitStmt st s) (checkStmt Γ s) (fun _ => True) := by
+  cases s with
+  | send amt src d =>
+    rw [checkStmt_send]
+    simp only [visitStmt]
+    have hs := visitSendSource_ck hinv amt src
+    cases h1 : visitSendSource st amt src with
+    | error er => rw [h1] at hs; exact hs.err (by intro hf; simp [hf])
+    | ok r1 =>
+      obtain ⟨c1, st1⟩ := r1
+      rw [h1] at hs
+      simp only
+      have hd := visitDestination_ck (hinv.ext (visitSendSource_ext h1)) d
+      cases h2 : visitDestination st1 d with
+      | error er => rw [h2] at hd; exact hd.err (by intro hf; simp [hf])
+      | ok r2 => obtain ⟨c2, st2⟩ := r2; rw [h2] at hd; exact ⟨by simp [hs.1, hd.1], trivial⟩
+  | saveMon e acc =>
+    simp only [visitStmt, checkStmt]
+    have ht : CkSpec (visitTyped st BTy.monetary e) _ _ := visitTyped_ck hinv .monetary (by decide) e
+    cases h1 : visitTyped st .monetary e with
+    | error er => rw [h1] at ht; exact ht.err (by intro hf; simp [hf])
+    | ok r1 =>
+      obtain ⟨m, c1, st1⟩ := r1
+      rw [h1] at ht
+      simp only
+      have ha : CkSpec (visitTyped st1 BTy.account acc) _ _ := visitTyped_ck (hinv.ext (visitTyped_ok h1).1) .account (by decide) acc
+      cases h2 : visitTyped st1 .account acc with
+      | error er => rw [h2] at ha; exact ha.err (by intro hf; simp [hf])
+      | ok r2 => obtain ⟨a, c2, st2⟩ := r2; rw [h2] at ha; exact ⟨by simp [ht.1, ha.1], trivial⟩
+  | saveAll ae acc =>
+    simp only [visitStmt, checkStmt]
+    have ht : CkSpec (visitTyped st BTy.asset ae) _ _ := visitTyped_ck hinv .asset (by decide) ae
+    cases h1 : visitTyped st .asset ae with
+    | error er => rw [h1] at ht; exact ht.err (by intro hf; simp [hf])
+    | ok r1 =>
+      obtain ⟨m, c1, st1⟩ := r1
+      rw [h1] at ht
+      simp only
+      have ha : CkSpec (visitTyped st1 BTy.account acc) _ _ := visitTyped_ck (hinv.ext (visitTyped_ok h1).1) .account (by decide) acc
+      cases h2 : visitTyped st1 .account acc with
+      | error er => rw [h2] at ha; exact ha.err (by intro hf; simp [hf])
+      | ok r2 => obtain ⟨a, c2, st2⟩ := r2; rw [h2] at ha; exact ⟨by simp [ht.1, ha.1], trivial⟩
+  | setTxMeta key v =>
+    simp only [visitStmt, checkStmt]
+    have he := visitExpr_ck hinv v
+    cases h1 : visitExpr st v with
+    | error er => rw [h1] at he; exact he.err id
+    | ok o =>
+      rw [h1] at he
+      simp only
+      cases h2 : allocRes o.st (.const (.str key)) with
+      | error er => cases allocRes_err h2; trivial
+      | ok r => obtain ⟨k, st1⟩ := r; exact ⟨he.1, trivial⟩
+  | setAccountMeta acc key v =>
+    simp only [visitStmt, checkStmt]
+    have he := visitExpr_ck hinv v
+    cases h1 : visitExpr st v with
+    | error er => rw [h1] at he; exact he.err (by intro hf; simp [hf])
+    | ok o =>
+      rw [h1] at he
+      simp only
+      cases h2 : allocRes o.st (.const (.str key)) with
+      | error er => cases allocRes_err h2; trivial
+      | ok r =>
+        obtain ⟨k, st1⟩ := r
+        simp only
+        have ha : CkSpec (visitTyped st1 BTy.account acc) _ _ :=
+          visitTyped_ck (hinv.ext ((visitExpr_ext h1).trans (allocConst_ok h2).1)) .account (by decide) acc
+        cases h3 : visitTyped st1 .account acc with
+        | error er => rw [h3] at ha; exact ha.err (by intro hf; simp [hf])
+        | ok r3 => obtain ⟨a, c2, st2⟩ := r3; rw [h3] at ha; exact ⟨by simp [he.1, ha.1], trivial⟩
+  | print e =>
+    simp only [visitStmt, checkStmt]
+    have he := visitExpr_ck hinv e
+    cases h1 : visitExpr st e with
+    | error er => rw [h1] at he; exact he.err id
+    | ok o => rw [h1] at he; exact ⟨he.1, trivial⟩
+  | fail => simp only [visitStmt, checkStmt]; exact ⟨rfl, trivial⟩
+
+theorem visitStmts_ck {st : CState} {Γ : TEnv} (hinv : Inv st Γ) (ss : List Stmt) :
+    CkSpec (visitStmts st ss) (ss.all (checkStmt Γ)) (fun _ => True) := by
+  induction ss generalizing st with
+  | nil => simp only [visitStmts, List.all_nil]; exact ⟨rfl, trivial⟩
+  | cons s rest ih =>
+    simp only [visitStmts, List.all_cons]
+    have hs := visitStmt_ck hinv s
+    cases h1 : visitStmt st s with
+    | error er => rw [h1] at hs; exact hs.err (by intro hf; simp [hf])
+    | ok r1 =>
+      obtain ⟨c1, st1⟩ := r1
+      rw [h1] at hs
+      simp only
+      have := ih (hinv.ext (visitStmt_ext h1))
+      cases h2 : visitStmts st1 rest with
+      | error er => rw [h2] at this; exact this.err (by intro hf; simp [hf])
+      | ok r2 => obtain ⟨c2, st2⟩ := r2; rw [h2] at this; exact ⟨by simp [hs.1, this.1], trivial⟩
+
 end Num
